@@ -139,6 +139,10 @@ class Engine:
         self.trace = False
         self.key_all = False  # full path sensitivity (small functions only)
         self.merge_returns = False  # join the partitions created inside an inlined callee at its return (per returned variant)
+        self.key_adts = set()  # ADT paths whose variant switches are always partition predicates
+        self.rd_syms = {}  # symbol of a value read from a byte slice -> (base, offset Lin, width in bytes, order class)
+        self.cuts = set()  # local functions treated modularly: weak nom-parser contract at call sites, verified stand-alone by the rule
+        self.cut_uses = defaultdict(int)
         self.keep_key = None  # callable(key item) -> bool: partition items that survive a callee's return under merge_returns
         self.keyed_events = set()
         self.counters = set()  # loop-head phi symbols that are loop counters (counter axiom)
@@ -308,16 +312,33 @@ class Engine:
             r = j.locs.pop((fr.fid, "ret"))
             results[ns.key] = (j, r)
 
+    def _shape_label(self, rv, depth=0):
+        """Variant shape of a returned value: nested single-variant enums (Ok/Err, Some/None) down to depth 3."""
+        if depth > 3:
+            return ()
+        if isinstance(rv, Enum):
+            if len(rv.variants) != 1:
+                return ("*",)
+            vi, fs = rv.variants[0]
+            out = (vi,)
+            for f in fs[:2]:
+                out = out + self._shape_label(f, depth + 1)
+            return out
+        if isinstance(rv, Struct):
+            out = ()
+            for f in rv.fields[:3]:
+                out = out + self._shape_label(f, depth + 1)
+            return out
+        return ()
+
     def _merge_results(self, results, fr, base):
         """Partitions created inside an inlined callee do not survive its return: exits are joined per
-        (caller partition, returned variant)."""
+        (caller partition, kept key items, variant shape of the returned value)."""
         merged = {}
         for key, (s, rv) in results.items():
-            lab = None
-            if isinstance(rv, Enum) and len(rv.variants) == 1:
-                lab = rv.variants[0][0]
-            kept = tuple(x for x in key[base:] if self.keep_key(x)) if self.keep_key is not None else ()
-            k2 = key[:base] + kept + ((("ret", fr.path.split("::")[-1], lab),) if lab is not None else ())
+            lab = self._shape_label(rv)
+            kept = tuple(x for x in key[base:] if self.keep_key(x, fr)) if self.keep_key is not None else ()
+            k2 = key[:base] + kept + ((("ret", fr.path.split("::")[-1], lab),) if lab else ())
             s.key = k2
             ex = merged.get(k2)
             if ex is None:
